@@ -39,7 +39,11 @@ func deepCases(thorough bool) []deepCase {
 	}
 	if thorough {
 		for _, d := range []int{65, 200, 300, 500, 512, 513, 1023, 1024, 1025, 2000, 4096, 10000, 20000} {
-			cs = append(cs, deepCase{d, 0, d % 3})
+			sibs := d % 3
+			if d > 3000 { // container siblings at every level of the longest chains only make the trace long
+				sibs = d % 2
+			}
+			cs = append(cs, deepCase{d, 0, sibs})
 		}
 		for k := 1; k <= 3; k++ {
 			cs = append(cs, deepCase{101, k, 2}, deepCase{260, k, 2}, deepCase{5001, k, 0})
